@@ -235,6 +235,21 @@ def run_item(item, tier):
                         '{t}[] a = {l} is {t}[]; g(a); h(a);', 'write(({l} is {t}[]).length);', '{t}[] a = {l}; g(a); h(a); a[1] = a[0];'):
                 src = f'empty g({t}[] p) {{ p[0] = p[1]; }} empty h(const {t}[] p) {{ write(p.length); }} empty @is_you(int x) {{ ' + use.format(t=t, l=lit_) + ' }'
                 check_text(st, src, f'array literal {lit_} cast to {t}[] used as {use[:24]}')
+        # every operator over operands of every kind -- including calls that return nothing -- in statement and value positions:
+        # whatever the typechecker lets through, code generation must cope with
+        pool = ['nop()', 'writeln()', 'debug()', 'fi()', '"s"', '[1]', 'true', 'x', "'c'", '[]']
+        pre = 'empty nop() { } int fi() { return 1; }\n'
+        for op in ('??', '+', '==', 'and', '<', '%'):
+            for a in pool:
+                for b in pool:
+                    e = f'{a} {op} {b}'
+                    for form in ('{e};', 'write({e});', 'int v = {e};', 'if ({e}) {{ }}', 'x = ({e}) is int;', 'return {e};', 'int q[{e}];'):
+                        check_text(st, pre + 'empty @is_you(int x) { ' + form.format(e=e) + ' }', f'operator {op} over {a}, {b} as {form}')
+        for a in pool:
+            for form in ('-{a};', 'not {a};', '+{a};', '{a} is int;', '{a} is bool;', '{a} is byte[];', '({a})[0];', '({a}).length;', 'write({a});', 'write(({a}) is bool);', 'nop2({a});',
+                         'int v = {a};', 'while ({a}) {{ break; }}', '!truth_is_defeat({a});', 'sleep({a});', 'x += {a};', 'return {a};'):
+                check_text(st, pre + 'empty nop2(int k) { } empty @is_you(int x) { try { ' + form.format(a=a) + ' } undo { } }', f'{form} with {a}')
+                check_text(st, pre + 'empty nop2(int k) { } empty @is_you(int x) { ' + form.format(a=a) + ' }', f'{form} with {a}')
         # undefined / misspelt calls in every flavour (the compiler offers hints for some of them)
         for name in ('print', 'println', 'printx', 'writ', 'write', 'writeln', 'sleep', 'is_defeat', 'truth_is_defeat', 'all_is_win', 'debug', 'length'):
             for fl in ('', '@', '!'):
@@ -353,12 +368,15 @@ def cli_case(st, d, k, prog, m, s, unchecked, lint_, oflag):
                 st.add('accepted')
             except svm.AsmError as e:
                 st.viol(f'{what}: exit status 0 but the assembler rejects the output: {e}', case, key=f'asm:{str(e)[:40]}')
-            # driver parity: the file must be exactly what the library pipeline produces for the same options
+            # driver parity (completeness oracle): the file must contain exactly the code the library pipeline produces for the same options
             try:
                 api = b''.join(l + b'\n' for l in hid.compile_lines(CLI_PROGS[prog], m // 8, s, unchecked, lint_))
             except Exception as e:
                 api = f'{type(e).__name__}: {e}'.encode()
-            if api != data:
+            def _code(b):
+                # instructions, directives and labels only: comments and blank lines are not part of the comparison
+                return [l.split(b';')[0].rstrip() if b'"' not in l and b"'" not in l else l.rstrip() for l in b.split(b'\n') if l.split(b';')[0].strip()]
+            if _code(api) != _code(data):
                 st.viol(f'{what}: the file written by the command-line driver differs from the output of parse/evaluate/CodeGen for the same options', case, key='parity')
             else:
                 st.add('driver_parity')
@@ -438,10 +456,12 @@ def coverage(total, tier):
             'token_strings': f'all strings of <= {4 if tier == "thorough" else 3} tokens over {len(SMALL_ALPHABET)} tokens',
             'character_strings': f'all strings of <= 3 characters over {len(CHARS)} characters, at top level and inside a function body',
             'constant array lengths': 'global (used/unused) and local arrays of every element type with 18 constant length expressions from -32769 to 2^31 and const-variable lengths, W 2,4',
+            'operand kinds': '6 binary operators (incl. ??) over all ordered pairs of 10 operand kinds (calls returning nothing, builtins, int call, string, array literals, bool, variable, char) in 7 '
+                             'statement/value positions; 17 unary/cast/index/call forms over the same operands inside and outside a try body',
             'calls': '12 builtin-like names x 3 flavours x 6 argument lists in you-function, try body, defeat function and next to a user definition of the same name',
             'literals': 'integer literals of 1..39, 100, 1000, 4299..4301, 5000 digits in every base; \\u{..} with 1..20 digits; each of the 256 first code points raw '
                         'in a string, at top level and in a comment; empty/CRLF/BOM/no-newline files; word sizes {0,1,-1,2,3,8,16,64} x stack sizes {-500,-1,0,1,2,500,1e6,1e9,1e30}',
-            'cli': f'{len(cli_grid(tier))} invocations (successful ones must be byte-identical to the library pipeline): 16 programs (ok, lex/parse/type errors, every class of codegen diagnostic, lint) x -m {{-8,0,8,12,16,24,64}} x -s {{-1,0,1,500,1e9}} x '
+            'cli': f'{len(cli_grid(tier))} invocations (successful ones must contain, comments aside, exactly the code the library pipeline produces): 16 programs (ok, lex/parse/type errors, every class of codegen diagnostic, lint) x -m {{-8,0,8,12,16,24,64}} x -s {{-1,0,1,500,1e9}} x '
                    '--unchecked x --lint x -o given/omitted; 11 file-encoding cases',
         },
     }
